@@ -16,7 +16,7 @@
 (* by the property it belongs to; a check looks at its own property only.   *)
 (* Acceptance of the run = all lines consumed (i = Len(Trace) + 1).         *)
 (***************************************************************************)
-EXTENDS Integers, Sequences, SequencesExt, TLC, Json, IOUtils, SFNum, SFEvents, SFCbor, SFUbjson, SFJson
+EXTENDS Integers, Sequences, SequencesExt, TLC, Json, IOUtils, SFNum, SFEvents, SFCbor, SFUbjson, SFJson, SFGoType
 
 Trace == ndJsonDeserialize(IOEnv.TRACE_FILE)
 
@@ -299,6 +299,48 @@ ReuseVerdict(c) ==
            ELSE (IF NormEvs(x.reused.ev) # NormEvs(x.fresh.ev) THEN <<"C17:reused parser/decoder reports different events than a fresh one">> ELSE <<>>)
       ELSE <<>>)
 
+\* ---- kind "fold" (C12, C09) ----------------------------------------------------------
+(* extra.T / extra.v: type and value as projected by reflection from the   *)
+(* actual Go value; calls[1]: Fold with the events a plain Visitor saw.    *)
+FoldVerdict(c) ==
+  LET T == c.extra.T  v == c.extra.v  call == c.calls[1]  ev == call.ev
+      refused == FoldRefused(T, v)  mayRefuse == TypeHasRefusal(T, 6) IN
+  IF c.outcome # "ok" THEN <<"C12:outcome:" \o c.outcome, "C11:outcome:" \o c.outcome>>
+  ELSE IF refused THEN (IF call.err = "nil" /\ HardRefused(T, v)
+                        THEN <<"C11:a type that cannot be handled was not refused with an error">> ELSE <<>>)
+  ELSE IF call.err # "nil" THEN (IF mayRefuse THEN <<>> ELSE <<"C12:Fold failed on a supported value (" \o call.msg \o ")">>)
+  ELSE (IF ~CWellFormed(ev, 1) THEN <<"C09:contract:" \o (IF CRun(ev).ok THEN "unbalanced at end" ELSE CRun(ev).why) \o " (Fold)">> ELSE <<>>)
+       \o (IF Len(Values(ev)) # 1 THEN <<"C12:Fold did not emit exactly one value">>
+           ELSE IF ~FoldAdmits(T, v, Values(ev)[1]) THEN <<"C12:folded value differs from the documented mapping">> ELSE <<>>)
+
+\* ---- kind "gort" (C11) -------------------------------------------------------------------
+GoRtVerdict(c) ==
+  LET x == c.extra  T == x.T  v == x.v
+      fv == FoldSem(T, v, FALSE)
+      refused == FoldRefused(T, v) \/ TypeHasRefusal(T, 6) \/ HasCustomFolder(T, 6)
+                 \/ (x.stage = "settarget" /\ UnfoldMayRefuse(T, 6))
+      \* documented representation limits of a transport
+      limited == \/ x.via = "json" /\ HasNonFinite(fv)
+                 \/ x.via = "ubjson" /\ HasBigUint(fv)
+      R == IF x.via = "json" THEN {"f2i", "f32as64"} ELSE {} IN
+  IF c.outcome # "ok" THEN <<"C11:outcome:" \o c.outcome>>
+  ELSE IF x.stage # "" THEN (IF refused \/ limited THEN <<>>
+                            ELSE <<"C11:round trip failed at " \o x.stage \o " (" \o x.err \o ")">>)
+  ELSE IF refused \/ limited THEN <<>>
+  ELSE IF ~RoundTripOK(R, T, v, x.r) THEN <<"C11:unfolded value differs from the folded one">> ELSE <<>>
+
+\* ---- kind "unfold" (C13) --------------------------------------------------------------------
+UnfoldVerdict(c) ==
+  LET x == c.extra  T == x.T
+      svs == Values(c.stream) IN
+  IF c.outcome # "ok" THEN <<"C13:outcome:" \o c.outcome, "C14:outcome:" \o c.outcome>>
+  ELSE IF ~CWellFormed(ExpandAll(c.stream), 1) \/ Len(svs) # 1 THEN <<"INFRA:generated stream is not one well-formed value">>
+  ELSE IF x.stage = "settarget" THEN (IF TypeHasRefusal(T, 6) THEN <<>> ELSE <<"C13:target type not accepted (" \o x.err \o ")">>)
+  ELSE LET want == Exp(T, x.v0, svs[1]) IN
+       IF HasUnspec(want) THEN <<"INFO:unspecified">>
+       ELSE IF x.stage # "" THEN <<"C13:matching stream not accepted (" \o x.err \o ")">>
+       ELSE IF ~PlainMatch({"f32as64"}, want, T, x.r) THEN <<"C13:assigned value differs from the stream's value">> ELSE <<>>
+
 \* ---- the trace machine ----------------------------------------------------------
 Verdict(c) ==
   CASE c.kind = "parse" -> ParseVerdict(c)
@@ -308,6 +350,9 @@ Verdict(c) ==
     [] c.kind = "extcmp" -> ExtCmpVerdict(c)
     [] c.kind = "fault" -> FaultVerdict(c)
     [] c.kind = "reuse" -> ReuseVerdict(c)
+    [] c.kind = "fold" -> FoldVerdict(c)
+    [] c.kind = "gort" -> GoRtVerdict(c)
+    [] c.kind = "unfold" -> UnfoldVerdict(c)
     [] OTHER -> <<"INFRA:unknown case kind">>
 
 Init == i = 1 /\ nfail = 0
